@@ -94,6 +94,11 @@ def gen_case(rng, tier, index):
         case["enumerate_kill"] = rng.choice(cand)["name"]
         # every sim point of that actor is hit in turn by a SIGKILL or by an errno
         case["enumerate_fault"] = rng.choice(["kill", "kill", "errno28", "errno5", "errno13"])
+        if tier != "thorough":
+            # keep a quick case below ~40 sub-runs: at most two rounds, sampled points beyond that
+            case["rounds"] = min(case["rounds"], 2)
+            case["enum_max"] = 40
+            case["enum_offset"] = rng.randrange(1000)
     case["faults"] = faults
     return case
 
@@ -452,7 +457,11 @@ def run_case(case):
         name = case["enumerate_kill"]
         base = dict(case, decisions=list(sim.decisions))
         ef = case.get("enumerate_fault", "kill")
-        for k in range(1, npts[name] + 1):
+        step = 1
+        if case.get("enum_max") and npts[name] > case["enum_max"]:
+            step = -(-npts[name] // case["enum_max"])
+        stats.inc("enumeration_exhaustive" if step == 1 else "enumeration_sampled")
+        for k in range(1 + (case.get("enum_offset", 0) % step), npts[name] + 1, step):
             flt = ({"actor": name, "at": k, "kind": "kill"} if ef == "kill" else
                    {"actor": name, "at": k, "kind": "errno", "errno": int(ef[5:])})
             v, s2, r2, _ = _one_run(base, [flt], "k%d" % k, stats)
